@@ -8,6 +8,7 @@ package main
 
 import (
 	"bytes"
+	"context"
 	"fmt"
 	"strings"
 
@@ -101,10 +102,18 @@ func runC11(r *run) {
 		mk(slog.New(fmt.Sprintf("o%d", n)), 1)
 		r.emit("C11 reset", "ok")
 	}
+	// a registered custom severity without colors or tags of its own: its records have the logger's format too
+	_ = slog.RegisterLevel(slog.Level(77), "C11PLAIN", slog.RegWithTreatedAsLevel(slog.InfoLevel))
+	probeN := 0
 	probeAll := func(what string, seq []modeLetter) {
 		for k, x := range loggers {
 			x.rec.take()
-			x.l.Info("probe\nsecond line\nthird\n", "k", 1)
+			probeN++
+			if probeN%4 == 0 {
+				x.l.Logit(context.Background(), slog.Level(77), "probe\nsecond line\nthird\n", "k", 1)
+			} else {
+				x.l.Info("probe\nsecond line\nthird\n", "k", 1)
+			}
 			w := x.rec.take()
 			shape := "none"
 			if len(w) == 1 {
@@ -229,6 +238,30 @@ func runC11(r *run) {
 		}
 		probeAll("with-chain", seq)
 		r.seen(key("with"))
+		if len(seq) == 2 {
+			// style 2b: the same With… call issued twice on one parent gives two loggers of their own; a mode call
+			// on the second (seq[1]) must not move the first — and asking a third time must not move either
+			reset()
+			m := seq[0]
+			withOf := func() *slog.Entry {
+				if m.json {
+					return loggers[0].l.WithJSONMode(m.bits...)
+				}
+				return loggers[0].l.WithColorMode(m.bits...)
+			}
+			first := mk(withOf(), specFmt(loggers[0].spec, m))
+			r.emit(fmt.Sprintf("C11 child 0 %s", m.tok), fmt.Sprint(len(loggers)-1))
+			second := mk(withOf(), specFmt(loggers[0].spec, m))
+			r.emit(fmt.Sprintf("C11 child 0 %s", m.tok), fmt.Sprint(len(loggers)-1))
+			apply(second.l, seq[1])
+			second.spec = specFmt(second.spec, seq[1])
+			r.emit(fmt.Sprintf("C11 set %d %s", len(loggers)-1, seq[1].tok), "ok")
+			mk(withOf(), specFmt(loggers[0].spec, m))
+			r.emit(fmt.Sprintf("C11 child 0 %s", m.tok), fmt.Sprint(len(loggers)-1))
+			_ = first
+			probeAll("with-twice-then-set-on-the-second", seq)
+			r.seen(key("with-twins"))
+		}
 		// style 3: New(name, options…) on the child
 		reset()
 		var opts []any
